@@ -955,7 +955,7 @@ func (s *PortStatus) UnmarshalBinary(data []byte) error {
 	s.Reason = data[n]
 	n += 1
 	copy(s.pad, data[n:])
-	n += len(s.pad)
+	n += 7 // the pad is 7 bytes whether or not the receiver allocated it
 
 	err = s.Desc.UnmarshalBinary(data[n:])
 	return err
